@@ -648,9 +648,9 @@ void MEDDLY::forest::createReducedNode(unpacked_node *un, edge_value &ev,
                             // Terminal 0
                             continue;
                         }
-                        ++nnz;
                         if (un->down(i) > 0) {
                             // Nonterminal
+                            ++nnz;
                             continue;
                         }
                         // Terminal that needs rounding
@@ -661,6 +661,8 @@ void MEDDLY::forest::createReducedNode(unpacked_node *un, edge_value &ev,
                         );
 
                         un->down(i) = T.getHandle();
+                        // The rounded value could be zero
+                        if (un->down(i)) ++nnz;
                     }
                 } else {
                     // Just count nonzeroes
